@@ -98,6 +98,8 @@ def model_obs(answer, case, impl):
     if made['made'][0] == 'ok':
         o['covered'] = made['covered'] if case['signer'][0] != 'none' else None
         o['final_name'] = made['final_name'] if case['pkt'] == 'interest' else None
+        if parsed is not None and parsed.get('res') == 'ok':
+            parsed.pop('PC', None)
         o['parsed'] = parsed
     return o
 
